@@ -1,4 +1,6 @@
 import AgModel.Proofs.SeamRepair
+import AgModel.Proofs.SeamRegen
+import AgModel.Proofs.ShredInstance
 import AgModel.Props.C12Seam
 import AgModel.Props.C14Live
 /-!
@@ -311,3 +313,105 @@ theorem raw_repair_completes (B : HBlock) (env : Env) (cenv : Nat → Content) (
   exact ⟨c1, c2, c3, c4, hra⟩
 
 end AgModel.Seam.Repair
+
+/-! ### `sigOk = true` of the responder model, without the assumed link; an injective interning of roots -/
+namespace AgModel.Seam
+open AgModel.Shred (Env VShred Bytes validate)
+open AgModel.Blockstore (Content)
+open AgModel.Merkle (H)
+
+/-- **`sigOk = true` of the responder model is a theorem** (C14; completes `served_sigOk_partial`: its hypothesis
+    `RegenBacked` is now `regenBacked_of_faithful`). A node that ingested ANY sequence of raw shreds through
+    `handle_disseminator_shred` answers a repair request for a shred (`try_build_response`, model `Repair.answer`,
+    which sets `sigOk = true`) only with the abstraction of a fine shred of that slot which passes
+    `ValidatedShred::try_new(_, None, leader_pk)` - for the shreds it stored AND for the shreds it regenerated after
+    reconstructing a slice. Hypotheses beyond those of `node_refines_blockstore` (`hinj`): the contracts `L` of the
+    external crates (only `leafId_inj`: no SHA-256 collision on leaf data, is used) and `Faithful`: the coarse decoding
+    environment says "decodes" only for code word roots. `Faithful` is not an assumption about peers or the leader: it
+    relates the two models' decoders (the fine `deshred` ends with `check_merkle_tree`, the coarse one is a lookup); it
+    holds for what the harness supplies (`faithful_of_leader`) and for every self-checking environment
+    (`served_sigOk_checked`: no hypothesis on the environment at all). Without it the *coarse model* regenerates
+    shreds the code never would (an environment that "decodes" a root which is no 64-leaf tree). -/
+theorem served_sigOk (env : Env) (L : env.Laws) (cenv : Nat → Content) (rid : RootId)
+    (hinj : ∀ a b, rid a = rid b → a = b) (pk cap slot : Nat) (hF : Faithful env rid cenv) (ss : List Shred.Shred)
+    (b : AgModel.Repair.Bid) (i j : Nat) (r : AgModel.Repair.Req) (hslot : Nat) (cs : Blockstore.Shred) (ok : Bool)
+    (ha : AgModel.Repair.answer (FNode.run env cenv rid pk (FNode.new cap slot) ss).1.abs (.shred b i j)
+      = some (.shred r hslot cs ok)) :
+    ok = true ∧ ∃ x : VShred, ServedOk env rid pk x cs ∧ x.shred.header.slot = slot :=
+  served_sigOk_partial env cenv rid hinj pk cap slot (regenBacked_of_faithful env L cenv rid pk slot hF) ss b i j r hslot cs ok ha
+
+/-- the same for ANY decoding oracle, re-checked (`checkedCenv`): no hypothesis on the environment -/
+theorem served_sigOk_checked (env : Env) (L : env.Laws) (dec : Nat → Option (List Bytes × Content)) (rid : RootId)
+    (hinj : ∀ a b, rid a = rid b → a = b) (pk cap slot : Nat) (ss : List Shred.Shred)
+    (b : AgModel.Repair.Bid) (i j : Nat) (r : AgModel.Repair.Req) (hslot : Nat) (cs : Blockstore.Shred) (ok : Bool)
+    (ha : AgModel.Repair.answer (FNode.run env (checkedCenv env rid dec) rid pk (FNode.new cap slot) ss).1.abs (.shred b i j)
+      = some (.shred r hslot cs ok)) :
+    ok = true ∧ ∃ x : VShred, ServedOk env rid pk x cs ∧ x.shred.header.slot = slot :=
+  served_sigOk env L _ rid hinj pk cap slot (checkedCenv_faithful env rid hinj dec) ss b i j r hslot cs ok ha
+
+/-- an explicit interning of the free hash term algebra `Merkle.H` into `Nat` (Gödel numbering; never `0`, the id of
+    the empty leaf) -/
+def ridInj : H → Nat
+  | .leaf d => 3 * d + 1
+  | .node l r => 3 * AgModel.Shred.Instance.pair (ridInj l) (ridInj r) + 2
+  | .junk n => 3 * n + 3
+
+/-- **an injective `rid` exists, explicitly**: the hypothesis `hinj` of `node_refines_blockstore`, `repair_refines`,
+    `served_sigOk`, … is satisfiable (non-vacuity), and `ridInj` never is the padding leaf id `0` -/
+theorem ridInj_injective : ∀ a b, ridInj a = ridInj b → a = b := by
+  intro a
+  induction a with
+  | leaf d => intro b h; cases b <;> simp only [ridInj] at h <;> first | (congr 1; omega) | omega
+  | junk n => intro b h; cases b <;> simp only [ridInj] at h <;> first | (congr 1; omega) | omega
+  | node l r ihl ihr =>
+    intro b h
+    cases b with
+    | leaf _ => simp only [ridInj] at h; omega
+    | junk _ => simp only [ridInj] at h; omega
+    | node l' r' =>
+      simp only [ridInj] at h
+      have hp : AgModel.Shred.Instance.pair (ridInj l) (ridInj r) = AgModel.Shred.Instance.pair (ridInj l') (ridInj r') := by omega
+      have h1 := congrArg AgModel.Shred.Instance.fstP hp
+      have h2 := congrArg AgModel.Shred.Instance.sndP hp
+      rw [AgModel.Shred.Instance.fstP_pair, AgModel.Shred.Instance.fstP_pair] at h1
+      rw [AgModel.Shred.Instance.sndP_pair, AgModel.Shred.Instance.sndP_pair] at h2
+      rw [ihl _ h1, ihr _ h2]
+
+theorem ridInj_ne_zero (a : H) : ridInj a ≠ 0 := by cases a <;> simp [ridInj]
+
+/-! ### non-vacuity -/
+section Witness
+open AgModel.Exec.ShredEnv
+open AgModel.Shred (wOut wS wFlipped wJunk)
+
+def wBid : AgModel.Repair.Bid := ⟨7, .leaf 9⟩
+def wReq : AgModel.Repair.Req := .shred wBid 3 3
+/-- a requester waiting for shred 3 of slice 3 (the last slice) of a block in slot 7, slice root proven -/
+def wSys : Repair.FSys :=
+  ⟨⟨[wReq], [wReq], [((wBid, 3), ridEx (wOut.getD 3 default).root)], [(wBid, 3)]⟩, [((wBid, 3), (wOut.getD 3 default).root)], []⟩
+
+/-- **Non-vacuity of the repair simulation**: the genuine raw shred of the leader (key 5) is accepted - request done,
+    `FirstShred`-free repair spot filled, no panic -; the same shred with a junk signature, with its type flipped,
+    under another leader key, or a shred of another index leaves the request outstanding and the store untouched; the
+    coarse model on the abstraction of the raw response does the same; `RootsAgree` holds of the start state. -/
+theorem repair_witness :
+    (Repair.fHandle toyEnv cenvEx ridEx (fun _ => 5) 4 wSys (.shred wReq wS)).1.st.outstanding = [] ∧
+    (Repair.fHandle toyEnv cenvEx ridEx (fun _ => 5) 4 wSys (.shred wReq wS)).2.panic = false ∧
+    (Repair.fHandle toyEnv cenvEx ridEx (fun _ => 5) 4 wSys (.shred wReq wS)).1.store.length = 1 ∧
+    (Repair.fHandle toyEnv cenvEx ridEx (fun _ => 5) 4 wSys (.shred wReq (wJunk 3))).1.st.outstanding = [wReq] ∧
+    (Repair.fHandle toyEnv cenvEx ridEx (fun _ => 5) 4 wSys (.shred wReq (wJunk 3))).1.store.length = 0 ∧
+    (Repair.fHandle toyEnv cenvEx ridEx (fun _ => 5) 4 wSys (.shred wReq wFlipped)).1.st.outstanding = [wReq] ∧
+    (Repair.fHandle toyEnv cenvEx ridEx (fun _ => 6) 4 wSys (.shred wReq wS)).1.st.outstanding = [wReq] ∧
+    (Repair.fHandle toyEnv cenvEx ridEx (fun _ => 5) 4 wSys (.shred wReq { wS with index := 4 })).1.st.outstanding = [wReq] ∧
+    (AgModel.Repair.handleResponse cenvEx 4 wSys.st wSys.store
+      (Repair.absResp toyEnv ridEx (fun _ => 5) (.shred wReq wS))).1.outstanding = [] ∧
+    (AgModel.Repair.handleResponse cenvEx 4 wSys.st wSys.store
+      (Repair.absResp toyEnv ridEx (fun _ => 5) (.shred wReq (wJunk 3)))).1.outstanding = [wReq] ∧
+    Repair.sigOkOf toyEnv 5 wS = true ∧ Repair.sigOkOf toyEnv 5 (wJunk 3) = false := by
+  decide +kernel
+
+example : Repair.RootsAgree ridEx wSys := rfl
+
+end Witness
+
+end AgModel.Seam
